@@ -218,6 +218,51 @@ func hE2E(dir string) {
 				cancel()
 			}
 		}
+		// a deterministic paging sweep at the end of every table's history: three more keys, then the whole
+		// table unary and streamed, with limits around the number of pairs, in the full, keys-only and
+		// count-only variants (the `more` flag, the count and the flags as the API layers pass them on)
+		for _, k := range []string{"pg1", "pg2", "pg3"} {
+			ctx, cancel := ctxT()
+			resp, err := kv.Put(ctx, &regattapb.PutRequest{Table: tname, Key: []byte(k), Value: []byte("v" + k)})
+			cancel()
+			if err != nil {
+				out.Count("refused")
+				continue
+			}
+			seeHeader(resp.Header, true)
+			e := mkEntry(resp.Header.Revision, &regattapb.Command{Type: regattapb.Command_PUT, Kv: &regattapb.KeyValue{Key: []byte(k), Value: []byte("v" + k)}})
+			out.Line("apply 0 "+e.render(), "ok")
+			out.Line("apply 1 "+e.render(), "ok")
+			out.Line("acked put", fmt.Sprintf("rev %d %s", resp.Header.Revision, aResp(&regattapb.ResponseOp{Response: &regattapb.ResponseOp_ResponsePut{ResponsePut: &regattapb.ResponseOp_Put{}}})))
+		}
+		for _, lim := range []int64{1, 2, 3, 0} {
+			for variant := 0; variant < 3; variant++ {
+				wq := &regattapb.RequestOp_Range{Key: []byte{0}, RangeEnd: []byte{0}, Limit: lim, KeysOnly: variant == 1, CountOnly: variant == 2}
+				rq := &regattapb.RangeRequest{Table: tname, Key: wq.Key, RangeEnd: wq.RangeEnd, Limit: lim, KeysOnly: wq.KeysOnly, CountOnly: wq.CountOnly, Linearizable: true}
+				ctx, cancel := ctxT()
+				if resp, err := kv.Range(ctx, rq); err == nil {
+					out.Line(fmt.Sprintf("rread range 1 %s", rRange(wq)), "ok "+aRR(&regattapb.ResponseOp_Range{Kvs: resp.Kvs, More: resp.More, Count: resp.Count}))
+					out.Count("sweep_range")
+				}
+				if st, err := kv.IterateRange(ctx, rq); err == nil {
+					var sb []byte
+					nch := 0
+					for {
+						resp, err := st.Recv()
+						if err != nil {
+							if err == io.EOF {
+								out.Line(fmt.Sprintf("rread iter 1 %s", rRange(wq)), fmt.Sprintf("ok %d%s", nch, sb))
+								out.Count("sweep_iter")
+							}
+							break
+						}
+						sb = append(sb, (" " + aRR(&regattapb.ResponseOp_Range{Kvs: resp.Kvs, More: resp.More, Count: resp.Count}))...)
+						nch++
+					}
+				}
+				cancel()
+			}
+		}
 	}
 	hs := "ok"
 	if !termsOK {
